@@ -507,8 +507,11 @@ def inline_new_locals(fn, ref_names) -> int:
                     chain = st.value
                     while isinstance(chain, ast.Attribute):
                         chain = chain.value
+                    root_rebound = isinstance(chain, ast.Name) and any(
+                        isinstance(z, ast.Name) and z.id == chain.id and isinstance(z.ctx, (ast.Store, ast.Del))
+                        for z in ast.walk(fn))
                     stable_attr = isinstance(st.value, ast.Attribute) and isinstance(chain, ast.Name) \
-                        and chain.id == 'self' and not any(
+                        and not root_rebound and not any(
                             isinstance(z, ast.Attribute) and isinstance(z.ctx, (ast.Store, ast.Del)) and
                             ast.unparse(z) == ast.unparse(st.value) for z in ast.walk(fn))
                     # an expression over plain local names only denotes the same objects as long as
